@@ -2,6 +2,7 @@ package c15
 
 import (
 	"fmt"
+	"hash/crc32"
 	"math/rand"
 	"strings"
 
@@ -544,46 +545,52 @@ func buildDoc(r *rand.Rand, small bool) gen.Doc {
 			csDefined += fmt.Sprint(i + 1)
 		}
 	}
+	// r2: generator of everything that concerns the route of the counter styles (below) and the
+	// sampler list.  It is seeded from the style text chosen so far and r itself is not consumed, so
+	// that all other choices of this document and of the documents that follow it in the case stay
+	// what they were before this family was added (the hostile-grammar documents of a group come
+	// from the same stream).
+	r2 := rand.New(rand.NewSource(int64(crc32.ChecksumIEEE([]byte(strings.Join(g.css, "|") + "|" + strings.Join(csRules, "|"))))))
 	// a quarter of the documents also (try to) redefine a predefined counter style: lower-greek /
 	// upper-roman / lower-roman may be overridden (css-counter-styles-3 §2: only decimal, disc, square,
 	// circle, disclosure-* may not), and the redefinition holds for that document only
 	csOverride := ""
-	if r.Intn(4) == 0 {
-		csOverride = gen.Pick(r, []string{"lower-greek", "upper-roman", "lower-roman", "disc"})
-		csRules = append(csRules, `@counter-style `+csOverride+` { system: `+gen.Pick(r, []string{`cyclic; symbols: "g" "h"`, `numeric; symbols: "0" "1"`, `fixed; symbols: "A" "B" "C"`})+`; suffix: ": " }`)
+	if r2.Intn(4) == 0 {
+		csOverride = gen.Pick(r2, []string{"lower-greek", "upper-roman", "lower-roman", "disc"})
+		csRules = append(csRules, `@counter-style `+csOverride+` { system: `+gen.Pick(r2, []string{`cyclic; symbols: "g" "h"`, `numeric; symbols: "0" "1"`, `fixed; symbols: "A" "B" "C"`})+`; suffix: ": " }`)
 	}
 	// route of these rules into the render's counter-style table: the document's <style>, a linked
 	// sheet, a sheet imported by the <style> (media list or not), or a sheet imported by an imported /
 	// linked sheet (relative URL, in a third of the cases with a circular @import back)
 	csRoute := "inline"
-	csSheet := strings.Join(csRules, "\n") + fmt.Sprintf("\n.csm li { padding-left: %dpx }", r.Intn(3))
+	csSheet := strings.Join(csRules, "\n") + fmt.Sprintf("\n.csm li { padding-left: %dpx }", r2.Intn(3))
 	files := map[string]string{}
 	csLink := ""
-	switch k := r.Intn(11); {
+	switch k := r2.Intn(11); {
 	case k < 4:
 		g.css = append(g.css, csRules...)
 	case k < 7:
 		csRoute = "import"
-		media := gen.Pick(r, []string{"", "", "", " print", " all", " screen, print", " screen"})
+		media := gen.Pick(r2, []string{"", "", "", " print", " all", " screen, print", " screen"})
 		if media == " screen" {
 			csRoute = "import-screen" // not applied to the print medium: every cs* falls back to decimal
 		}
-		imp := gen.Pick(r, []string{`@import url(mem://doc/cs.css)%s;`, `@import "mem://doc/cs.css"%s;`, `@import url("cs.css")%s;`, `@import 'cs.css'%s;`})
+		imp := gen.Pick(r2, []string{`@import url(mem://doc/cs.css)%s;`, `@import "mem://doc/cs.css"%s;`, `@import url("cs.css")%s;`, `@import 'cs.css'%s;`})
 		g.css = append([]string{`@charset "utf-8";`, fmt.Sprintf(imp, media)}, g.css...)
 		files["cs.css"] = csSheet
 	case k < 9:
 		csRoute = "link"
-		csLink = `<link rel="stylesheet" href="` + gen.Pick(r, []string{"mem://doc/cs.css", "cs.css"}) + `">`
+		csLink = `<link rel="stylesheet" href="` + gen.Pick(r2, []string{"mem://doc/cs.css", "cs.css"}) + `">`
 		files["cs.css"] = csSheet
 	default:
 		csRoute = "nested"
 		back := ""
-		if r.Intn(3) == 0 {
+		if r2.Intn(3) == 0 {
 			back = "@import \"imp.css\";\n" // circular: refused by the fetcher guard, the rest of the sheet applies
 		}
 		files["cs.css"] = back + csSheet
-		files["imp.css"] = "@import url(cs.css);\nol.csm { margin-left: " + fmt.Sprint(20+5*r.Intn(3)) + "px }"
-		if r.Intn(2) == 0 {
+		files["imp.css"] = "@import url(cs.css);\nol.csm { margin-left: " + fmt.Sprint(20+5*r2.Intn(3)) + "px }"
+		if r2.Intn(2) == 0 {
 			g.css = append([]string{`@import "imp.css";`}, g.css...)
 		} else {
 			csLink = `<link rel="stylesheet" href="mem://doc/imp.css">`
@@ -625,18 +632,18 @@ func buildDoc(r *rand.Rand, small bool) gen.Doc {
 		}
 		g.body = append([]string{"<ul class=toc>" + sb.String() + "</ul>"}, g.body...)
 	}
-	csSampler := r.Intn(3) != 0
+	csSampler := r2.Intn(3) != 0
 	if csSampler {
 		// one list item per counter style of the family (defined by this document or not: an undefined
 		// one falls back to decimal), at a random place
 		var sb strings.Builder
 		for _, c := range []string{"cs1", "cs2", "cs3", "cs4", "roman", "greek", "lroman"} {
-			if r.Intn(5) != 0 {
-				fmt.Fprintf(&sb, `<li class="%s">%s</li>`, c, gen.Pick(r, plainWords))
+			if r2.Intn(5) != 0 {
+				fmt.Fprintf(&sb, `<li class="%s">%s</li>`, c, gen.Pick(r2, plainWords))
 			}
 		}
-		at := r.Intn(len(g.body) + 1)
-		g.body = append(g.body[:at:at], append([]string{fmt.Sprintf(`<ol class="csm" start="%d">%s</ol><ul class="csm"><li>%s</li></ul>`, 1+r.Intn(12), sb.String(), gen.Pick(r, plainWords))}, g.body[at:]...)...)
+		at := r2.Intn(len(g.body) + 1)
+		g.body = append(g.body[:at:at], append([]string{fmt.Sprintf(`<ol class="csm" start="%d">%s</ol><ul class="csm"><li>%s</li></ul>`, 1+r2.Intn(12), sb.String(), gen.Pick(r2, plainWords))}, g.body[at:]...)...)
 	}
 	meta := csLink
 	if r.Intn(3) == 0 {
